@@ -92,6 +92,74 @@ pub fn with_identifier_order(rule: &Rule, perm: &[usize]) -> Option<Rule> {
     None
 }
 
+/// Known finding support: a nested block whose only content is a user-written `all(k): [..]` has
+/// the same tree shape as blocks merged by `shake` (`nested(f, all(group(|| ..)))`) and the solver
+/// evaluates that shape on arrays member by member (each member satisfied by *some* element).
+/// `lone_all_blocks` returns the container fields of such blocks in an unoptimised tree;
+/// `without_lone_all_shortcut` returns the tree with those blocks wrapped so that the solver
+/// evaluates them element by element (what the rule language says).
+pub fn lone_all_blocks(e: &Expression, ids: &HashMap<String, Expression>) -> Vec<String> {
+    use tau_engine::core::parser::{BoolSym, Match};
+    fn walk(e: &Expression, out: &mut Vec<String>) {
+        match e {
+            Expression::Nested(f, inner) => {
+                if let Expression::Match(Match::All, g) = &**inner {
+                    if let Expression::BooleanGroup(BoolSym::Or, v) = &**g {
+                        if v.len() >= 2 {
+                            out.push(f.clone());
+                        }
+                    }
+                }
+                walk(inner, out);
+            }
+            Expression::BooleanGroup(_, v) => v.iter().for_each(|x| walk(x, out)),
+            Expression::BooleanExpression(l, _, r) => {
+                walk(l, out);
+                walk(r, out);
+            }
+            Expression::Negate(x) | Expression::Match(_, x) => walk(x, out),
+            _ => {}
+        }
+    }
+    let mut out = vec![];
+    walk(e, &mut out);
+    let mut keys: Vec<&String> = ids.keys().collect();
+    keys.sort();
+    for k in keys {
+        walk(&ids[k], &mut out);
+    }
+    out
+}
+
+pub fn without_lone_all_shortcut(e: &Expression) -> Expression {
+    use tau_engine::core::parser::{BoolSym, Match};
+    match e {
+        Expression::Nested(f, inner) => {
+            let body = without_lone_all_shortcut(inner);
+            let lone = matches!(&body, Expression::Match(Match::All, g) if matches!(&**g, Expression::BooleanGroup(BoolSym::Or, v) if v.len() >= 2));
+            if lone {
+                Expression::Nested(f.clone(), Box::new(Expression::BooleanGroup(BoolSym::And, vec![body])))
+            } else {
+                Expression::Nested(f.clone(), Box::new(body))
+            }
+        }
+        Expression::BooleanGroup(s, v) => Expression::BooleanGroup(s.clone(), v.iter().map(without_lone_all_shortcut).collect()),
+        Expression::BooleanExpression(l, s, r) => Expression::BooleanExpression(Box::new(without_lone_all_shortcut(l)), s.clone(), Box::new(without_lone_all_shortcut(r))),
+        Expression::Negate(x) => Expression::Negate(Box::new(without_lone_all_shortcut(x))),
+        Expression::Match(m, x) => Expression::Match(m.clone(), Box::new(without_lone_all_shortcut(x))),
+        other => other.clone(),
+    }
+}
+
+pub const LONE_ALL_SIGNATURE: &str = "all()-alone-in-a-nested-block-is-satisfied-by-different-array-elements";
+
+/// three-valued result of the rule with every lone all() block evaluated element by element
+pub fn val3_without_lone_all_shortcut(e: &Expression, ids: &HashMap<String, Expression>, doc: &dyn Document) -> Result<i8, String> {
+    let e2 = without_lone_all_shortcut(e);
+    let ids2: HashMap<String, Expression> = ids.iter().map(|(k, v)| (k.clone(), without_lone_all_shortcut(v))).collect();
+    catch(|| tau_engine::verif::solve3(&e2, &ids2, doc))
+}
+
 pub fn canon_ids(ids: &HashMap<String, Expression>) -> String {
     let mut v: Vec<String> = ids.iter().map(|(k, e)| format!("{}={}", k, e)).collect();
     v.sort();
